@@ -229,10 +229,41 @@ func (c *Ctx) sessionTopicRecord() {
 	{
 		// Topics: a range over the map appending key and value in the same iteration
 		var rng *ssa.Range
-		for _, b := range tops.Blocks {
-			for _, in := range b.Instrs {
-				if r, ok := in.(*ssa.Range); ok && ir.PathOf(r.X).Class() == "sessions.Session.topics" {
-					rng = r
+		api := tops
+		findRange := func(fn *ssa.Function) *ssa.Range {
+			for _, b := range fn.Blocks {
+				for _, in := range b.Instrs {
+					if r, ok := in.(*ssa.Range); ok && ir.PathOf(r.X).Class() == "sessions.Session.topics" {
+						return r
+					}
+				}
+			}
+			return nil
+		}
+		rng = findRange(tops)
+		if rng == nil {
+			// the lists are built by a helper whose results Topics() returns as they are
+			for _, call := range ir.Calls(api) {
+				callee := call.Common().StaticCallee()
+				if callee == nil || callee.Pkg != api.Pkg || findRange(callee) == nil {
+					continue
+				}
+				passed := 0
+				for _, b := range api.Blocks {
+					ret, ok := b.Instrs[len(b.Instrs)-1].(*ssa.Return)
+					if !ok {
+						continue
+					}
+					for i := range ret.Results {
+						res := ir.ReturnOperand(ret, i)
+						if ex, ok := res.(*ssa.Extract); ok && call.Value() != nil && ex.Tuple == ssa.Value(call.Value()) {
+							passed++
+						}
+					}
+				}
+				if passed >= 2 {
+					tops = callee
+					rng = findRange(callee)
 				}
 			}
 		}
@@ -250,7 +281,11 @@ func (c *Ctx) sessionTopicRecord() {
 		// the two lists are parallel (index i of one belongs to index i of the other: start() pairs them by
 		// index): after they were filled neither may be handed to anything that can reorder or change it alone
 		var offenders []string
-		for _, call := range ir.Calls(tops) {
+		allCalls := ir.Calls(tops)
+		if api != tops {
+			allCalls = append(allCalls, ir.Calls(api)...)
+		}
+		for _, call := range allCalls {
 			cc := call.Common()
 			if bi, ok := cc.Value.(*ssa.Builtin); ok && (bi.Name() == "append" || bi.Name() == "len" || bi.Name() == "cap") {
 				continue
@@ -267,6 +302,10 @@ func (c *Ctx) sessionTopicRecord() {
 				switch x := v.(type) {
 				case *ssa.Phi:
 					offenders = append(offenders, calleeShort(cc)+" at "+c.P.InstrPos(call))
+				case *ssa.Extract:
+					if tc, ok := x.Tuple.(*ssa.Call); ok && tc.Common().StaticCallee() == tops && api != tops {
+						offenders = append(offenders, calleeShort(cc)+" at "+c.P.InstrPos(call))
+					}
 				case *ssa.Call:
 					if bi, ok := x.Common().Value.(*ssa.Builtin); ok && bi.Name() == "append" {
 						offenders = append(offenders, calleeShort(cc)+" at "+c.P.InstrPos(call))
